@@ -336,6 +336,8 @@ def geometry_oracle(chk, ac, a):
             if seg.N == rt.N and abs(getattr(seg, "y_offset", 0.0)) == abs(getattr(rt, "y_offset", 0.0)):
                 if not np.allclose(np.array(seg.dihedral_cp)[::-1], -np.array(rt.dihedral_cp), rtol=0, atol=1e-9):
                     return "mirror-angles:dihedral", dict(segment=nm, left=np.array(seg.dihedral_cp).tolist(), right=np.array(rt.dihedral_cp).tolist())
+                if not np.allclose(np.array(seg.sweep_cp)[::-1], -np.array(rt.sweep_cp), rtol=0, atol=1e-6):
+                    return "mirror-angles:sweep", dict(segment=nm, left=np.array(seg.sweep_cp).tolist(), right=np.array(rt.sweep_cp).tolist())
                 if not np.allclose(np.array(seg.twist_cp)[::-1], np.array(rt.twist_cp), rtol=0, atol=1e-9):
                     return "mirror-angles:twist", dict(segment=nm, left=np.array(seg.twist_cp).tolist(), right=np.array(rt.twist_cp).tolist())
                 # the lifting line itself (offset from the quarter chord included): left = mirror image of right, relative to the two roots
